@@ -9,9 +9,10 @@ model (structure.model_step, DESIGN 3.3) allows for (pre-state, op).
 from .. import engine_h
 from ..report import Report
 from ..structure import (
-    Alphabet, SWorld, apply_op, canon_world, inv_links, inv_members, observe, shape,
+    Alphabet, Pumped, SWorld, apply_op, canon_world, inv_links, inv_members, observe, shape,
     model_step, obs_match, UNSPEC,
 )
+from .c01 import PUMPED
 
 PROP = "C03"
 
@@ -73,6 +74,8 @@ class System:
         self.unspec = 0
 
     def initial(self):
+        if isinstance(self.alpha, Pumped):
+            return self.alpha.initial()
         return SWorld(self.alpha.nv, self.alpha.nu)
 
     def ops(self, w):
@@ -113,8 +116,13 @@ class System:
 
 
 def replay(rec, verbose=False):
-    alpha = Alphabet(**rec["pool"])
-    w = SWorld(alpha.nv, alpha.nu)
+    if "pumped_star" in rec["pool"]:
+        pl = rec["pool"]
+        alpha = Pumped(pl["pumped_star"], pl["extra_links"], pl["cls"], pl["maxar"], pl["none_ends"])
+        w = alpha.initial()
+    else:
+        alpha = Alphabet(**rec["pool"])
+        w = SWorld(alpha.nv, alpha.nu)
     hist = [tuple(op) for op in rec["history"]]
     for op in hist[:-1]:
         apply_op(w, op)
@@ -160,6 +168,25 @@ def run(tier, seed, log):
             "wall_s": round(res.wall, 1),
         })
         samples += [{"pool": spec, "history": h} for h in res.sample_histories[-3:]]
+    pump = PUMPED[tier]
+    pstates = ptrans = 0
+    for n in pump["ns"]:
+        alpha = Pumped(n)
+        res = engine_h.explore(System(alpha), seed=seed, max_depth=pump["depth"])
+        for fp, (cnt, rec) in res.viols.items():
+            rec = dict(rec)
+            rec["pool"] = alpha.describe()
+            rep.add("pumped|" + fp, rec, cnt)
+        pstates += res.states
+        ptrans += res.transitions
+        tot["states"] += res.states
+        tot["transitions"] += res.transitions
+        tot["validated"] += res.validated
+        tot["nontrivial"] += res.nontrivial
+    log(f"[{PROP}] pumped stars n={pump['ns']} depth<={pump['depth']}: states={pstates} transitions={ptrans}")
+    pools_ev.append({"pool": "pumped stars (hub with n links; every history of <= depth focused ops from there)",
+                     "hub_degrees": pump["ns"], "depth": pump["depth"], "states": pstates,
+                     "transitions": ptrans, "fixpoint": False})
     rep.coverage = {
         "states": tot["states"],
         "transitions": tot["transitions"],
